@@ -244,7 +244,8 @@ static void *watchdog(void *arg) {
         clock_nanosleep(CLOCK_MONOTONIC, 0, &ts, nullptr);
         uint64_t p = g_progress.load();
         if (p != last) { last = p; t_last = wall_now(); continue; }
-        if (g_cur_plan && wall_now() - t_last > limit) {
+        // heavyweight plans (gigabytes of live memory, a million timers) name their own allowance
+        if (g_cur_plan && wall_now() - t_last > limit * (double)(g_cur_plan->get("hang_scale", 1) > 0 ? g_cur_plan->get("hang_scale", 1) : 1)) {
             crash_line("hang:wallclock");
             _exit(5);
         }
